@@ -199,7 +199,7 @@ def classify_check(c, harness_files):
     loc = c["loc"]
     if any(h in loc for h in harness_files):
         return "harness", None
-    if re.search(r"(^|/)(core|hook|open-coroutine|macros)/src/", loc):
+    if re.match(r"(core|hook|open-coroutine|macros)/src/", loc.strip()) and "/library/" not in loc:
         return "crate", None
     return "foreign", None
 
